@@ -1741,6 +1741,16 @@ example :
                       .installSvc { name := "ftp-server", port := 21, proto := 1 } true [22] .good 2]).deliverOut 22 1 false
       = .recv [(0, false), (1, true)] := by decide
 
+/-- **`send()` leaves the software only while it may act**: `IOSoftware.send` hands the payload to the session manager
+(returns True) only if the node is ON and the software RUNNING, and never changes the node's software state. -/
+theorem C13_send_guard (n : Node) (u : Nat) :
+    (n.step (.send u)).1 = n ∧ ((n.step (.send u)).2 = .ret true → n.isOn = true ∧ n.isRunning u = true) := by
+  simp only [Node.step]
+  split
+  · refine ⟨rfl, fun h => ?_⟩
+    simpa [Node.handles] using h
+  · exact ⟨rfl, fun h => by cases h⟩
+
 /-- a frame for a closed port is ignored before any software sees it (`HostNode.receive_frame`) -/
 theorem C13_frame_closed_port_ignored (n : Node) (h : Hdr) (scan : Bool) (hi : h ≠ .icmp)
     (hp : ∀ p, h.dstPort = some p → p ∉ n.openPorts) (hs : scan = false) :
